@@ -166,7 +166,8 @@ class Engine(EngineBase):
                 ops.append([k, pi, small_sp(rng)])
             elif k == "pickle_fresh":
                 ops.append([k, h, rng.choice([["init"], ["doc_set", rng.choice("pq"), rng.randrange(9)],
-                                              ["remove"], ["read"]])])
+                                              ["remove"], ["read"],
+                                              ["sp_set", rng.choice("abc"), rng.choice([0, 1, 2, "x"])]])])
         sc["ops"] = ops
         return sc
 
@@ -1036,6 +1037,17 @@ class Run:
         sub = op[2]
         if sub[0] == "doc_set" and cid(hd.sp) in self.emptydirs[hd.proj]:
             return  # document access does not repair an artificial empty id-named directory (see _usable_for_doc)
+        want_id, want_sp, moved = cid(hd.sp), hd.sp, False
+        if sub[0] == "sp_set":
+            # the other process changes the state point through the unpickled handle
+            want_sp = norm({**hd.sp, sub[1]: sub[2]})
+            want_id = cid(want_sp)
+            if want_id in self.emptydirs[hd.proj] or cid(hd.sp) in self.emptydirs[hd.proj] or self.decoys[hd.proj]:
+                return
+            if want_id != cid(hd.sp) and want_id in self.model[hd.proj] and cid(hd.sp) in self.model[hd.proj]:
+                want_id, want_sp = cid(hd.sp), hd.sp  # refused: the destination exists
+            elif want_id != cid(hd.sp) and cid(hd.sp) in self.model[hd.proj]:
+                moved = True
         ncopies = sum(1 for x in self.handles if x.group == hd.group)
         try:
             blob = pickle.dumps(hd.obj)
@@ -1054,6 +1066,10 @@ class Run:
             "if sub[0] == 'init': job.init()\n"
             "elif sub[0] == 'doc_set': job.doc[sub[1]] = sub[2]\n"
             "elif sub[0] == 'remove': job.remove()\n"
+            "elif sub[0] == 'sp_set':\n"
+            "    import signac\n"
+            "    try: job.sp[sub[1]] = sub[2]\n"
+            "    except signac.errors.DestinationExistsError: pass\n"
             "print(json.dumps({'id': job.id, 'sp': job.statepoint(), 'path': job.path}))\n"
         )
         with self.world.observing():
@@ -1069,10 +1085,18 @@ class Run:
         import json as _json
         out = _json.loads(r.stdout.decode().strip().splitlines()[-1])
         jid = cid(hd.sp)
-        if out["id"] != jid or not same(out["sp"], hd.sp) or \
-                os.path.realpath(out["path"]) != os.path.realpath(os.path.join(self.pp[hd.proj], "workspace", jid)):
+        if out["id"] != want_id or not same(out["sp"], want_sp) or \
+                os.path.realpath(out["path"]) != os.path.realpath(os.path.join(self.pp[hd.proj], "workspace", want_id)):
             raise Mismatch("C04", "C04:pickle:fresh-handle-differs",
-                           f"the unpickled handle describes {out}, the original denotes {hd.sp} ({jid[:8]})")
+                           f"the unpickled handle describes {out} after {sub}, expected {want_sp} ({want_id[:8]}); "
+                           f"the original denotes {hd.sp} ({jid[:8]})")
+        if moved:
+            # another process re-keyed the job: this session's handles on the old id are stale
+            self.model[hd.proj][want_id] = self.model[hd.proj].pop(jid)
+            self.model[hd.proj][want_id]["sp"] = norm(want_sp)
+            self.taint_others(hd.proj, jid)
+            self.mutations += 1
+            self.probe("pickle_fresh_rekey")
         if sub[0] == "init" or sub[0] == "doc_set":
             j = self._ensure(hd)
             if sub[0] == "doc_set":
